@@ -214,7 +214,8 @@ class CoapAccessory:
             return ba.ST_INVALID_IID, b""
         if opcode == OP_READ:
             if c.type_hex == "00000050" and getattr(self, "pairings_reply", None) is not None:
-                return 0, tlv8.encode([(1, self.pairings_reply)])
+                raw = getattr(self, "pairings_raw", None)  # C15: arbitrary bytes as the inner pairing TLV
+                return 0, tlv8.encode([(1, self.pairings_reply if raw is None else raw)])
             if "pr" not in c.perms:
                 return ba.ST_INVALID_REQ, b""
             return 0, tlv8.encode([(1, ba.pack_value(c.fmt, c.value))])
